@@ -205,7 +205,7 @@ func unionMenu(w *chain.World) []chain.Action {
 		chain.V2Pay(chain.AddrV2, true, 2), chain.V2Chain(chain.AddrACS), chain.V2SF(true), chain.V2Form(1, 2, 100), chain.V2Form(0, 1, 10),
 		chain.V2Revise("pay"), chain.V2Revise("grow"), chain.V2Renew("partial"), chain.V2Proof(), chain.V2Expire(), chain.V2Attest(),
 		// several MidState code paths for ONE element inside a block (the leaf that revert restores / apply writes)
-		chain.Seq("v1revise-twice", chain.V1Revise("pay"), chain.V1Revise("grow")), chain.Seq("v1revise+proof", chain.V1Revise("pay"), chain.V1Proof(false)), chain.Seq("v1form+revise", chain.V1Form(1, 2, 100), chain.V1Revise("pay")),
+		chain.Seq("v1revise-twice", chain.V1Revise("pay"), chain.V1Revise("grow")), chain.Seq("v1revise+proof", chain.V1Revise("pay"), chain.V1Proof(false)), chain.V1FormRevise(true),
 		chain.Seq("v2revise-twice", chain.V2Revise("pay"), chain.V2Revise("grow")), chain.Seq("v2form+revise", chain.V2Form(1, 2, 100), chain.V2Revise("pay")), chain.Seq("v2revise+renew", chain.V2Revise("pay"), chain.V2Renew("none")),
 	}
 }
